@@ -137,6 +137,30 @@ class CSSParser:
             if isinstance(cssText, bytes):
                 cssText = codecs.getdecoder('css')(cssText, encoding=encoding)[0]
 
+            return self._parseDecoded(
+                cssText,
+                encodingOverride=encoding,
+                href=href,
+                media=media,
+                title=title,
+                validate=validate,
+            )
+
+    def _parseDecoded(
+        self,
+        cssText,
+        encodingOverride=None,
+        encoding=None,
+        href=None,
+        media=None,
+        title=None,
+        validate=None,
+    ):
+        """Parse the (decoded) `cssText`. `encodingOverride` is the encoding
+        of the sheet and of all sheets it imports, `encoding` the one of the
+        sheet only (which imported sheets without encoding information of
+        their own inherit)."""
+        with self.__parseSetting():
             if validate is None:
                 validate = self._validate
 
@@ -150,7 +174,8 @@ class CSSParser:
             # tokenizing this ways closes open constructs and adds EOF
             sheet._setCssTextWithEncodingOverride(
                 self.__tokenizer.tokenize(cssText, fullsheet=True),
-                encodingOverride=encoding,
+                encodingOverride=encodingOverride,
+                encoding=encoding,
             )
         return sheet
 
@@ -210,14 +235,14 @@ class CSSParser:
         encoding, enctype, text = cssutils.util._readUrl(
             href, fetcher=self.__fetcher, overrideEncoding=encoding
         )
-        if enctype == 5:
-            # do not use if defaulting to UTF-8
-            encoding = None
-
         if text is not None:
-            return self.parseString(
+            # only an explicit override also governs imported sheets; an
+            # encoding found via HTTP, BOM or @charset is the one of this
+            # sheet only and nothing is set if defaulting to UTF-8
+            return self._parseDecoded(
                 text,
-                encoding=encoding,
+                encodingOverride=encoding if enctype == 0 else None,
+                encoding=encoding if 0 < enctype < 5 else None,
                 href=href,
                 media=media,
                 title=title,
